@@ -250,6 +250,49 @@ func c16Round(w *mon.W, round int) {
 	rooms := []string{"r1", "r2", "r3"}[:1+rng.Intn(3)]
 	rm := x.hub.GetRoomManager()
 	for phase := 0; phase < 3; phase++ {
+		// join storm: all live clients join the same brand-new room at the same instant
+		// (first-join of a room is where the room object is created)
+		for k := 0; k < 12; k++ {
+			fresh := fmt.Sprintf("fresh-%d-%d", phase, k)
+			var storm []*c16Client
+			for _, c := range x.clients {
+				if c.srv != nil && !c.closed.Load() {
+					storm = append(storm, c)
+				}
+			}
+			var sw sync.WaitGroup
+			var gate atomic.Bool
+			for _, c := range storm {
+				sw.Add(1)
+				go func(c *c16Client) {
+					defer sw.Done()
+					for !gate.Load() {
+					}
+					c.srv.JoinRoom(fresh)
+				}(c)
+			}
+			gate.Store(true)
+			sw.Wait()
+			x.ops.Add(int64(len(storm)))
+			room, exists := rm.GetRoom(fresh)
+			members := 0
+			for _, c := range storm {
+				own := c.srv.IsInRoom(fresh)
+				in := exists && room.Has(c.srv)
+				if in {
+					members++
+				}
+				if own != in && !c.closed.Load() {
+					w.Violate("membership-views-disagree:after-simultaneous-first-join", fmt.Sprintf("%d clients joined the new room %s at once; afterwards client %d has IsInRoom=%v but room.Has=%v", len(storm), fresh, c.idx, own, in), wit(map[string]interface{}{"room": fresh}))
+				}
+			}
+			if members > x.maxRoom {
+				w.Violate("room-limit-exceeded", fmt.Sprintf("room %s has %d members with MaxConnectionsPerRoom=%d", fresh, members, x.maxRoom), wit(map[string]interface{}{"room": fresh}))
+			}
+			for _, c := range storm {
+				c.srv.LeaveRoom(fresh)
+			}
+		}
 		var wg sync.WaitGroup
 		seeds := make([]int64, 8)
 		for g := range seeds {
@@ -330,6 +373,11 @@ func c16Round(w *mon.W, round int) {
 						case p < 94:
 							if c.srv != nil && x.mayClose(c) {
 								go c.srv.Close() // server-side close (blocks until the hub takes the unregister)
+							}
+						case p < 96:
+							// burst of hub-wide broadcasts: fills send queues, exercises the slow-consumer path
+							for b := 0; b < 300; b++ {
+								x.hub.Broadcast([]byte("burst"))
 							}
 						default:
 							_ = x.hub.GetConnectionCount()
